@@ -67,8 +67,9 @@ var typeNames = []string{"t0", "t1", "t2", "t3"}
 
 // gen carries the PRNG of one type table (all random choices of the table and its documents).
 type gen struct {
-	r   *rand.Rand
-	mut string // kind of the last document mutation
+	r    *rand.Rand
+	mut  string // kind of the last document mutation
+	look bool   // the document printed last holds a look-alike string
 }
 
 func (g *gen) genNode(depth int, allowRef bool) *Node {
@@ -161,6 +162,29 @@ func (g *gen) genNode(depth int, allowRef bool) *Node {
 		return n
 	default:
 		return &Node{Kind: "any"}
+	}
+}
+
+// String tokens whose content looks like another JSON kind (the model says: a quoted token is a string, full stop),
+// plain and with escapes. Document string scalars are drawn from this pool every second time; a case whose document
+// holds one of them is validated 8 times by the real library and all repeats must agree (a type guess that depends
+// on map iteration order differs from call to call).
+var lookAlike = []string{`"a.b"`, `"1.5"`, `"1"`, `"-0"`, `"1e5"`, `"1.5e3"`, `"true"`, `"false"`, `"null"`, `"{"`, `"["`, `"{}"`, `"[]"`,
+	`""`, `" "`, `"0.0"`, `"."`, `"e"`, `"E"`, `"v1.2"`, `"-1.5E+2"`, `"[1.5]"`, `"{\"a\": 1.5}"`,
+	`"a\u002eb"`, `"1\u002e5"`, `"\u0031.5"`, `"tru\u0065"`, `"nul\u006c"`, `"\"1.5\""`, `"1.5\n"`, `"\u007b\u007d"`, `"\t1.0"`}
+
+var lookSet = map[string]bool{}
+
+func init() {
+	have := map[string]bool{}
+	for _, t := range tokPool["s"] {
+		have[t] = true
+	}
+	for _, t := range lookAlike {
+		lookSet[t] = true
+		if !have[t] {
+			tokPool["s"] = append(tokPool["s"], t)
+		}
 	}
 }
 
@@ -292,6 +316,8 @@ func (g *gen) spell(v int64, scale int) string {
 // zeroExp: the document holds a numeral whose zero integer part is directly followed by an exponent (0e1, -0E5).
 // The implementation does not recognise those as numbers (known finding K-C10-zeroexp, pinned by the repository's
 // own tests).
+var strTok = regexp.MustCompile(`"(\\.|[^"\\])*"`)
+var expNum = regexp.MustCompile(`[0-9][eE]`)
 var zeroExp = regexp.MustCompile(`(^|[ \[:,])-?0[eE]`)
 
 // values the random documents spell out (mantissa, fractional digits)
@@ -658,6 +684,9 @@ func (g *gen) sample(n *Node, types map[string]*Node, fuel int) *Doc {
 			default:
 				v = g.sample(types[n.Add[1:]], types, fuel-1)
 			}
+			if r.Intn(4) == 0 { // whatever the mode: a string value that looks like another kind
+				v = &Doc{Kind: "l", Lit: "s", Tok: lookAlike[r.Intn(len(lookAlike))]}
+			}
 			d.Keys = append(d.Keys, "e")
 			d.Items = append(d.Items, v)
 		}
@@ -723,6 +752,9 @@ func (g *gen) docText(d *Doc) string {
 				x := p[g.r.Intn(len(p))]
 				d.Tok = g.spell(x[0], int(x[1]))
 			}
+		}
+		if lookSet[d.Tok] {
+			g.look = true
 		}
 		return d.Tok
 	case "a":
@@ -1009,8 +1041,18 @@ func oneTable(seed int64) tableResult {
 			d = g.genDoc(2)
 			st = append(st, "doc_random")
 		}
+		g.look = false
 		dt := g.docText(d) // fixes the tokens: must precede docSx
 		v := validate(rootText, typeTexts, typeNames, dt)
+		if g.look {
+			st = append(st, "doc_with_lookalike_string")
+			for k := 1; k < 8; k++ {
+				if w := validate(rootText, typeTexts, typeNames, dt); w != v {
+					v = fmt.Sprintf("UNSTABLE: call 1 = %s, call %d = %s", v, k+1, w)
+					break
+				}
+			}
+		}
 		switch {
 		case v == "ACC":
 			st = append(st, "accepted")
@@ -1021,11 +1063,12 @@ func oneTable(seed int64) tableResult {
 		}
 		st = append(st, "doc_root_"+d.Kind)
 		caseClass := class
-		if zeroExp.MatchString(dt) {
+		noStr := strTok.ReplaceAllString(dt, `""`) // numerals only: string contents blanked
+		if zeroExp.MatchString(noStr) {
 			caseClass = "K-C10-zeroexp"
 			st = append(st, "doc_with_zero_exponent_numeral")
 		}
-		if strings.ContainsAny(dt, "eE") {
+		if expNum.MatchString(noStr) {
 			st = append(st, "doc_with_exponent_numeral")
 		}
 		if strings.ContainsAny(dt, "\\é€😀") {
